@@ -41,4 +41,10 @@ CHECKS["C32"] = dict(level="exploration", technique="TLC-generated exhaustive sm
          "sequences in TLA+ (with their own theorems checked by TLC); every string up to length 7-8 over small alphabets is replayed "
          "through the real functions and TLC compares the results exactly.",
     note="Exhaustive small scope; longer strings, other alphabets, empty string delimiters and start positions > 0 are not explored.", ref="8/C32")
+CHECKS["C18"] = dict(level="exploration", technique="TLC-generated exhaustive small sequences + std:: meaning on sequences judged by TLC (FSAlgo.tla)",
+    text="The std:: meaning of the 12 algorithms is written on sequences in TLA+ (left folds, first-occurrence rule, visiting order); "
+         "every sequence over {0,1,2} up to length 7-8 and pseudo-random contents for every N up to 64 are replayed through the real "
+         "templates (all N instantiated), with non-commutative custom operations pinning the fold order and sentinels detecting writes "
+         "beyond N; TLC compares results exactly.",
+    note="Two deviations from std:: (accumulate(op) argument order, max_element(comp) comparator sense) are recorded known findings.", ref="8/C18")
 NOT_APPLICABLE = {}
